@@ -373,7 +373,7 @@ class Interp:
                 pass
             except (Unsupported, NotImplementedError) as u:
                 paths.append(Path(list(self.st.pc), "unsupported", str(u) or type(u).__name__, self.st))
-            except (AttributeError, TypeError, KeyError, IndexError, ValueError, AssertionError, RecursionError) as ex:
+            except (AttributeError, TypeError, KeyError, IndexError, ValueError, AssertionError, RecursionError, MemoryError) as ex:
                 # the interpreter or a model met a construct it does not handle (changed code under contract can do
                 # that at any time): that path is not generated - undecided, never a crash of the whole check
                 import traceback as _tb
@@ -1110,8 +1110,16 @@ class Interp:
             raise Unsupported(f"iteration over {type(it).__name__}")
         if isinstance(it, str):
             return [c for c in it]
+        import itertools as _it
+        if isinstance(it, (_it.cycle, _it.count, _it.repeat)):
+            raise Unsupported(f"iteration over an unbounded / live iterator object ({type(it).__name__})")
         try:
-            return list(it)
+            if hasattr(it, "__len__"):
+                return list(it)
+            out = list(_it.islice(it, 200001))
+            if len(out) > 200000:
+                raise Unsupported("iteration over an iterator of more than 200000 elements")
+            return out
         except TypeError as e:
             raise Raised(ExcVal(TypeError, e.args))
 
@@ -1382,7 +1390,14 @@ class Interp:
         self.comp_iter(e.generators, env, lambda env2: (self.concrete_key(self.ev(e.key, env2)), self.ev(e.value, env2)), out)
         if all(g is True for g, _ in out):
             return {k: v for _, (k, v) in out}
-        raise Unsupported("dict comprehension with guards")
+        if len(out) > 12:
+            raise Unsupported("dict comprehension with more than 12 guarded entries")
+        # an entry that is present under a symbolic condition: decide the condition (fork), a dict has concrete keys
+        d = {}
+        for g, (k, v) in out:
+            if g is True or self.branch(g):
+                d[k] = v
+        return d
 
     def ev_JoinedStr(self, e, env):
         from . import models
